@@ -219,6 +219,13 @@ def sdpStep (st : AddrSt) (ws : List String) : AddrSt × String :=
           ({ st with a := updStream st.a sid fun s => updComp s c.componentId fun k =>
               { k with locals := k.locals ++ [c] } }, "ok")
     | _, _ => (st, "bad-op")
+  | ["rm", which, sid] =>        -- nice_agent_remove_stream on the generating (a) / parsing (b) agent
+    match num sid with
+    | some sid =>
+      if sid > 4294967295 || (which != "a" && which != "b") then (st, "bad-op") else
+      let rm (g : Agent) : Agent := { g with streams := g.streams.filter fun s => s.id != UInt32.ofNat sid }
+      (if which == "a" then { st with a := rm st.a } else { st with b := rm st.b }, "ok")
+    | none => (st, "bad-op")
   | ["forcerelay", v] =>
     match num v with
     | some v => ({ st with a := { st.a with forceRelay := v != 0 } }, "ok")
